@@ -20,7 +20,7 @@ RULE = ("a case is one connection multigraph (1-5 simulators in a random group t
 
 
 def make_case(seed: int, tier: str, prop: str, opts=None) -> Dict[str, Any]:
-    sc = gen.gen_graph(seed, tier)
+    sc = gen.gen_dense_graph(seed, tier) if h64(seed, "family") % 8 == 0 else gen.gen_graph(seed, tier)
     k = 4 if tier == "quick" else 8
     orders = [{"start_seed": None, "connect_seed": None, "order_seed": None}]
     for j in range(1, k):
